@@ -441,3 +441,24 @@ class RT(object):
             if not r.caught and self.L.ep_param_get() == v:
                 out.append((nm, v))
         return out
+
+    # ------------------------------------------------------------ pairing curves
+    # ep_param_set(id) configures only G1.  The twist (G2, ep2_curve_*) is configured by
+    # ep2_curve_set_twist(type), which ep_param_set_any_pairf() calls for the ONE default curve of the
+    # field size only (BN_P256 at 256 bits).  Types found to give a bilinear pairing (1 = D, 2 = M):
+    TWIST_TYPE = {"BN_P256": 1, "SM9_P256": 2, "B12_P381": 2, "BN_P254": 1, "B12_P377": 1, "B12_P446": 2,
+                  "BN_P446": 1, "BN_P382": 1, "B12_P383": 2, "B12_P455": 1, "B12_P638": 2, "BN_P638": 1}
+
+    def pairing_set(self, name):
+        """activate a k=12 pairing parameter set completely (G1, twist, GT); returns ep_params()"""
+        r = self.call("ep_param_set", self.E[name])
+        if r.caught or self.L.ep_param_get() != self.E[name]:
+            raise KeyError("parameter set %s not accepted by this build" % name)
+        self.fp_setup()
+        r = self.call("ep2_curve_set_twist", self.TWIST_TYPE[name])
+        if r.caught:
+            raise RuntimeError("ep2_curve_set_twist failed for " + name)
+        return self.ep_params()
+
+    def pairing_names(self):
+        return [n for n, _ in self.ep_param_ids() if n in self.TWIST_TYPE]
